@@ -34,26 +34,21 @@ pub fn build_router(app: &AppDesc, order: Option<u64>) -> Built {
 }
 
 fn pct_decode(raw: &[u8]) -> Option<String> {
-    let mut out = Vec::with_capacity(raw.len());
-    let mut i = 0;
-    while i < raw.len() {
-        if raw[i] == b'%' && i + 2 < raw.len() + 0 && i + 2 <= raw.len() - 1 + 0 {
-            let h = (raw[i + 1] as char).to_digit(16);
-            let l = (raw[i + 2] as char).to_digit(16);
-            if let (Some(h), Some(l)) = (h, l) {
-                out.push((h * 16 + l) as u8);
-                i += 3;
-                continue;
-            }
-        }
-        out.push(raw[i]);
-        i += 1;
-    }
-    String::from_utf8(out).ok()
+    String::from_utf8(crate::oracle::http::pct_decode_lenient(raw)).ok()
 }
 
 /// does the observation agree with this expectation?
 fn agrees(flat: &Flat, e: &Expect, method: M, o: &Observed) -> Result<(), String> {
+    agrees_path(flat, e, method, o, true)
+}
+fn agrees_path(flat: &Flat, e: &Expect, method: M, o: &Observed, path_is_utf8: bool) -> Result<(), String> {
+    if !path_is_utf8 {
+        // a path that is not UTF-8 after decoding denotes no resource: any error, no handler
+        if !o.handlers().is_empty() || o.status() < 400 {
+            return Err(format!("the path is not UTF-8 after percent-decoding: expected an error response and no handler; observed {}", o.summary()));
+        }
+        return Ok(());
+    }
     match e {
         Expect::Miss => {
             if !o.handlers().is_empty() {
@@ -294,13 +289,14 @@ impl Property for C01 {
             }
             let m = if rq.method == M::HEAD { M::GET } else { rq.method };
             let readings = routes::expect(&flat, m, path);
+            let path_utf8 = true; // routing is bytewise; only captured params are decoded (checked per param in `agrees`)
             if nontrivial(&flat, path) {
                 obs.nontrivial_sub(fnv(format!("{shape}:{}:{}", rq.method.as_str(), rq.target).as_bytes()));
             }
             match readings.decided() {
                 Some(e) => {
                     obs.label(if matches!(e, Expect::Hit(..)) { "decided-hit" } else { "decided-miss" });
-                    if let Err(why) = agrees(&flat, e, rq.method, &oa) {
+                    if let Err(why) = agrees_path(&flat, e, rq.method, &oa, path_utf8) {
                         let dev = match (e, oa.handlers().is_empty()) {
                             (Expect::Miss, false) => "false-hit",
                             (Expect::Miss, true) => "miss-but-not-404",
@@ -313,7 +309,7 @@ impl Property for C01 {
                 None => {
                     obs.ambiguous += 1;
                     obs.label("undecided");
-                    if !readings.all().iter().any(|e| agrees(&flat, e, rq.method, &oa).is_ok()) {
+                    if !readings.all().iter().any(|e| agrees_path(&flat, e, rq.method, &oa, path_utf8).is_ok()) {
                         obs.fail(
                             format!("{}:none-of-four-readings", classify(&flat, path)),
                             format!("{} {}: readings {:?} / {:?} / {:?} / {:?}; observed {}", rq.method.as_str(), rq.target, readings.a_best, readings.a_greedy, readings.b_best, readings.b_greedy, oa.summary()),
